@@ -888,6 +888,128 @@ _VERTEX_NEVER_LISTED = {
 }
 
 
+_SOLVER_OBJ = ("vpsc::Constraint *", "vpsc::Variable *", "Constraint *", "Variable *")
+
+
+def rule_solver_objects_read_before_freed(chk, prog):
+    r = chk.rule("SOLVER-OBJECTS-READ-BEFORE-FREED", "in libcola / libvpsc / libtopology, a function that frees vpsc constraints (variables) with `delete` "
+                 "does not, on any path AFTER such a delete and outside the loop that contains it, dereference a vpsc::Constraint* "
+                 "(vpsc::Variable*) or build an UnsatisfiableConstraintInfo from one -- GradientProjection::destroyVPSC reports the "
+                 "unsatisfiable constraints of `cs`, which CONTAINS the per-iteration constraints `lcs` it frees (and whose variables beyond the "
+                 "static ones it frees too), so the report has to come first", floor=4)
+
+    def ptype(n):
+        return str((strip(n) or {}).get("t", "")).replace("const ", "").strip()
+    seen_destroy = False
+    for fn in prog.all_functions():
+        if not fn.body or "/tests/" in fn.file or not any(x in fn.file for x in ("/libcola/", "/libvpsc/", "/libtopology/")):
+            continue
+        dels = [n for n in fn.nodes() if n.get("k") == "CXXDeleteExpr" and n.get("ch") and ptype(n["ch"][0]) in _SOLVER_OBJ]
+        if not dels:
+            continue
+        uses = [n for n in fn.nodes() if n.get("k") == "MemberExpr" and n.get("arrow") and n.get("ch") and ptype(n["ch"][0]) in _SOLVER_OBJ]
+        infos = [n for n in fn.nodes() if n.get("k") == "CXXConstructExpr" and "UnsatisfiableConstraintInfo" in n.get("cname", "")]
+        if not uses and not infos:
+            continue
+        if fn.q == "cola::GradientProjection::destroyVPSC":
+            seen_destroy = True
+        g = CFG(fn)
+        for d in dels:
+            r.count()
+            kind = ptype(d["ch"][0]).split("::")[-1]
+            loops = [a for a in fn.ancestors(d) if a.get("k") in ("ForStmt", "WhileStmt", "DoStmt", "CXXForRangeStmt")]
+            inner_ids = {x.get("id") for x in walk(loops[0])} if loops else set()
+            bad = None
+            for u in uses + infos:
+                if u.get("id") in inner_ids:
+                    continue
+                if u in uses and ptype(u["ch"][0]).split("::")[-1] != kind:
+                    continue
+                try:
+                    w = g.search([g.after(d)], targets=[u["id"]])
+                except AnalysisBroken:
+                    continue
+                if w:
+                    bad = "%s at line %s is reached after this delete (%s): the object may be one of those just freed" % (
+                        norm(u)[:60], u.get("l"), g.describe(w))
+                    break
+            (r.bad if bad else r.ok)("delete %s in %s" % (norm(d["ch"][0]), fn.q), fn.loc(d), bad or "")
+    if not seen_destroy:
+        raise AnalysisBroken("GradientProjection::destroyVPSC no longer frees and reports constraints: rule out of date")
+
+
+_GROW = ("resize", "push_back", "emplace_back", "insert", "push_front", "emplace", "emplace_front", "reserve", "assign")
+_CONTIG = re.compile(r"^std::(vector|deque)<")
+
+
+def rule_iterator_survives_growth(chk, prog):
+    r = chk.rule("ITERATOR-NOT-USED-AFTER-GROWTH", "a local initialised from begin() / end() (and friends) of a std::vector or std::deque is not used, on "
+                 "any path, after a call that may grow that same container (resize, push_back, insert, emplace*, reserve, assign) unless it was "
+                 "assigned anew in between -- growth invalidates every iterator of these two containers (Graph::getConnComps extends its BFS "
+                 "deque by resize and must take `end() - n` afterwards); the same for a range-for over a container that its body grows",
+                 floor=20)
+    for fn in prog.all_functions():
+        if not fn.body or "/tests/" in fn.file or fn.tmpl == "pattern":
+            continue
+        grow = {}
+        for c in calls(fn):
+            nm = c.get("cname") or ""
+            if c.get("k") == "CXXMemberCallExpr" and nm.split("::")[-1] in _GROW and _CONTIG.match(nm):
+                o = call_object(c)
+                if o is not None:
+                    grow.setdefault(norm(o), []).append(c)
+        if not grow:
+            continue
+        g = None
+        for d in fn.nodes():
+            if d.get("k") == "CXXForRangeStmt" and d.get("range") is not None and _CONTIG.match(str((strip(d["range"]) or {}).get("t", "")).replace("const ", "")):
+                X = norm(d["range"])
+                if X in grow:
+                    r.count()
+                    body_ids = {x.get("id") for x in walk(d.get("body") or {})}
+                    inside = [c for c in grow[X] if c["id"] in body_ids]
+                    (r.bad if inside else r.ok)("range-for over %s in %s" % (X, fn.q), fn.loc(d), "" if not inside else
+                                                "the loop body grows the container it iterates over (line %s)" % inside[0].get("l"))
+                continue
+            if d.get("k") != "VarDecl" or d.get("init") is None:
+                continue
+            X = None
+            for c in walk(d["init"]):
+                nm = c.get("cname") or ""
+                if c.get("k") == "CXXMemberCallExpr" and nm.split("::")[-1] in ("begin", "end", "cbegin", "cend", "rbegin", "rend") and _CONTIG.match(nm):
+                    o = call_object(c)
+                    if o is not None and norm(o) in grow:
+                        X = norm(o)
+                    break
+            if X is None:
+                continue
+            r.count()
+            g = g or CFG(fn)
+            uses = [n for n in fn.nodes() if n.get("k") == "DeclRefExpr" and n.get("did") == d.get("did")]
+            asg = set()
+            for lhs, node, op in writes(fn):
+                l_ = strip(lhs)
+                if l_ and l_.get("k") == "DeclRefExpr" and l_.get("did") == d.get("did") and op == "=":
+                    asg.add(node["id"])
+            ds = [a for a in fn.ancestors(d) if a.get("k") == "DeclStmt"]
+            if ds:
+                asg.add(ds[0]["id"])
+            bad = None
+            for gc in grow[X]:
+                for u in uses:
+                    try:
+                        w = g.search([g.after(gc)], blocked=asg, targets=[u["id"]])
+                    except AnalysisBroken:
+                        continue
+                    if w:
+                        bad = "`%s` (an iterator of %s) is used at line %s after %s at line %s may have moved the container's storage (%s)" % (
+                            d.get("name"), X, u.get("l"), (gc.get("cname") or "").split("::")[-1], gc.get("l"), g.describe(w))
+                        break
+                if bad:
+                    break
+            (r.bad if bad else r.ok)("%s in %s" % (d.get("name"), fn.q), fn.loc(d), bad or "")
+
+
 def rule_vertex_unlisted(chk, prog):
     r = chk.rule("VERTEX-UNLISTED-BEFORE-DELETE", "every `delete` of an Avoid::VertInf is preceded, on every path, by VertInfList::removeVertex of the same "
                  "vertex (the router's vertex list is an intrusive list threaded through the vertices: a freed vertex that is still linked is "
@@ -1145,6 +1267,8 @@ def run(chk):
     chk.guard(rule_of_three, chk, prog)
     chk.guard(rule_dead_pin_actions, chk, prog)
     chk.guard(rule_vertex_unlisted, chk, prog)
+    chk.guard(rule_solver_objects_read_before_freed, chk, prog)
+    chk.guard(rule_iterator_survives_growth, chk, prog)
     chk.guard(rule_ctor_order, chk, prog, cg)
     chk.guard(rule_connend_deref, chk, prog)
     chk.guard(rule_queued_ends_detached, chk, prog)
